@@ -332,6 +332,22 @@ class Gen:
             key = (iname, port)
             if key in mc.implicit:
                 continue
+            if final and key in mc.assigned and mc.m.insts[iname]["kind"] == "inst" and mc.assigned[key][0] != "nc" and ch.chance(1, 8):
+                # release: the port is disconnected for good and stays implicit, referenced by others -
+                # by references taken before the disconnect and by one taken right after it
+                others = [(i2, p2, s2) for i2, p2, s2 in todo if (i2, p2) != key and (i2, p2) not in mc.implicit and mc.m.insts[i2]["kind"] == "inst" and self.d.compatible(s2, shape) and isinstance(s2, int) == isinstance(shape, int) and not self._reaches(mc, key, (i2, p2))]
+                if others:
+                    self.emit(["disc", mc.mid, iname, port])
+                    del mc.assigned[key]
+                    mc.implicit.add(key)
+                    i2, p2, _s2 = ch.pick(others, "rereference")
+                    x = ["pr", iname, port]
+                    if (i2, p2) in mc.assigned:
+                        self.emit(["repl", mc.mid, i2, p2, x]) if ch.chance(1, 2) else self.emit(["conn", mc.mid, i2, p2, x, "setattr"])
+                    else:
+                        self.emit(["conn", mc.mid, i2, p2, x, "connect"])
+                    mc.assigned[(i2, p2)] = x
+                    continue
             if key in mc.assigned:
                 way = ch.weighted([(3, "conn"), (3, "repl"), (2, "disc")], "rehow")
                 if way == "disc":
